@@ -198,24 +198,24 @@ func SingleStore(a *ssa.Alloc) ssa.Value {
 // pure callees whose results are determined by their arguments (no CSE in go/ssa,
 // so two textual occurrences are distinct SSA values; paths identify them).
 var pureCallees = map[string]bool{
-	GVertexID:                  true,
-	GraphPath + ".hashcode":    true,
-	"strings.ToLower":          true,
-	"strings.ToUpper":          true,
-	"(reflect.Type).Kind":      true,
-	"(reflect.Type).Elem":      true,
-	"(reflect.Type).NumOut":    true,
-	"(reflect.Type).NumIn":     true,
-	"(reflect.Type).NumField":  true,
-	"(reflect.Value).Type":     true,
-	"(reflect.Value).IsValid":  true,
-	"reflect.ValueOf":          true,
-	"reflect.TypeOf":           true,
-	"builtin.len":              true,
-	"(reflect.Type).String":    true,
-	"(reflect.Value).Kind":     true,
-	"(reflect.Value).Elem":     true,
-	"(reflect.Value).Field":    true,
+	GVertexID:                   true,
+	GraphPath + ".hashcode":     true,
+	"strings.ToLower":           true,
+	"strings.ToUpper":           true,
+	"(reflect.Type).Kind":       true,
+	"(reflect.Type).Elem":       true,
+	"(reflect.Type).NumOut":     true,
+	"(reflect.Type).NumIn":      true,
+	"(reflect.Type).NumField":   true,
+	"(reflect.Value).Type":      true,
+	"(reflect.Value).IsValid":   true,
+	"reflect.ValueOf":           true,
+	"reflect.TypeOf":            true,
+	"builtin.len":               true,
+	"(reflect.Type).String":     true,
+	"(reflect.Value).Kind":      true,
+	"(reflect.Value).Elem":      true,
+	"(reflect.Value).Field":     true,
 	"(reflect.Value).Interface": true,
 }
 
@@ -1220,4 +1220,34 @@ func (p *Prog) DerefFree(v ssa.Value) ssa.Value {
 		return SingleStore(a)
 	}
 	return nil
+}
+
+// IsLoopBound reports whether a guard literal is merely a loop condition or a
+// loop-exit condition (range exhausted, index bound), i.e. not a filter on the
+// element being processed.
+func IsLoopBound(l Lit) bool {
+	switch l.Kind {
+	case "bool":
+		if e, ok := l.Of.(*ssa.Extract); ok && e.Index == 0 {
+			if _, ok := e.Tuple.(*ssa.Next); ok {
+				return true
+			}
+		}
+	case "cmp":
+		if l.Op == token.LSS || l.Op == token.LEQ || l.Op == token.GTR || l.Op == token.GEQ {
+			// index compared with a length
+			isIdx := func(v ssa.Value) bool {
+				switch x := v.(type) {
+				case *ssa.Phi:
+					return true
+				case *ssa.BinOp:
+					_, ok := x.X.(*ssa.Phi)
+					return ok && x.Op == token.ADD
+				}
+				return false
+			}
+			return isIdx(l.X) || isIdx(l.Y)
+		}
+	}
+	return false
 }
